@@ -12,6 +12,7 @@ import (
 	"context"
 	"errors"
 	"fmt"
+	"os"
 	"runtime"
 	"sort"
 	"strings"
@@ -112,6 +113,7 @@ type world struct {
 	refuseDials               int
 	dialCount                 int
 	reqLog                    []string
+	parked                    []parkedDrop
 	fired                     []string
 	zapCounts                 map[string]int64
 	maxHeadTold, lastAnnounce uint64
@@ -558,7 +560,7 @@ func (w *world) announce(back uint64, burst bool) {
 
 // settle: wait for quiescence, flush the records made by other goroutines in canonical order, judge.
 func (w *world) settle(op string) {
-	synctest.Wait()
+	w.quiesce()
 	d := w.d
 	w.mu.Lock()
 	reqs, fired := w.reqLog, w.fired
@@ -647,6 +649,10 @@ func (w *world) finale() {
 			break
 		}
 		if cs == "reconnecting" {
+			if os.Getenv("ELSIM_STACKS") != "" {
+				buf := make([]byte, 1<<20)
+				fmt.Println(string(buf[:runtime.Stack(buf, true)]))
+			}
 			w.finding("not-resubscribed-after-recovery", "no fault for %v of fake time and the client has no subscription", 3*cycle)
 			return
 		}
